@@ -361,14 +361,16 @@ static inline int64_t local_pow(int b, int n)
 
 float32_t igris_atof32(const char *str, char **pend)
 {
-    if (!igris_isdigit(*str) && *str != '-')
+    uint8_t minus = 0;
+    if (*str == '+')
     {
-        return 0;
-    }
-
-    uint8_t minus = *str == '-' ? 1 : 0;
-    if (minus)
         str++;
+    }
+    else if (*str == '-')
+    {
+        minus = 1;
+        str++;
+    }
 
     char *end;
     unsigned int u = igris_atou32(str, 10, &end);
